@@ -223,8 +223,8 @@ def rrdata(session, ctx, cip):
     return enip_frame(0x6f, session, ctx, cpf)
 
 
-def recv_frame(sock):
-    buf = b""
+def recv_frame(sock, _rest={}):
+    buf = _rest.pop(id(sock), b"")
     while len(buf) < 24:
         d = sock.recv(8192)
         if not d:
@@ -236,8 +236,9 @@ def recv_frame(sock):
         if not d:
             return None
         buf += d
-    return {"cmd": cmd, "session": sess, "status": status, "ctx": ctx, "payload": buf[24:24 + ln],
-            "extra": len(buf) - 24 - ln}
+    if len(buf) > 24 + ln:
+        _rest[id(sock)] = buf[24 + ln:]
+    return {"cmd": cmd, "session": sess, "status": status, "ctx": ctx, "payload": buf[24:24 + ln]}
 
 
 def cip_of(payload):
@@ -426,7 +427,8 @@ class C09(Suite):
         sessions = []
         for sid in range(nsess):
             frames = [self.rand_frame(rng, tags, sid, k) for k in range(rng.randint(max(1, per // 2), per))]
-            sessions.append({"client": "cpppo" if rng.random() < 0.2 else "raw", "frames": frames, "chaos": None})
+            sessions.append({"client": "cpppo" if rng.random() < 0.2 else "raw", "frames": frames, "chaos": None,
+                             "depth": rng.choice([1, 1, 2, 4])})
         if rng.random() < 0.3:
             raws = [s for s in sessions if s["client"] == "raw"]
             if raws:
@@ -467,7 +469,7 @@ class C09(Suite):
     def cases(self, tier, rng):
         for c in self.pair_cases():
             yield c
-        n = 34 if tier == "quick" else 520
+        n = 34 if tier == "quick" else 360
         for _ in range(n):
             yield self.rand_case(rng, tier)
 
@@ -508,15 +510,19 @@ class C09(Suite):
                 out["error"] = "register failed"
                 return
             out["handle"] = handle = r["session"]
-            for k, cip in enumerate(encoded):
+            depth = max(1, int(sess.get("depth", 1)))      # requests in flight on this connection
+            sent = 0
+            for k in range(len(encoded)):
+                while sent < len(encoded) and sent < k + depth:
+                    s.sendall(rrdata(handle, struct.pack("<II", sid, sent), encoded[sent]))
+                    sent += 1
                 ctx = struct.pack("<II", sid, k)
-                s.sendall(rrdata(handle, ctx, cip))
                 r = recv_frame(s)
                 if r is None:
                     out["replies"].append(None)
                     out["closed_at"] = k
                     break
-                ok = r["ctx"] == ctx and r["session"] == handle and r["cmd"] == 0x6f and r["extra"] == 0
+                ok = r["ctx"] == ctx and r["session"] == handle and r["cmd"] == 0x6f
                 cipr = cip_of(r["payload"]) if r["status"] == 0 else None
                 out["replies"].append({"enip": r["status"], "ctx_ok": ok, "cip": cipr.hex() if cipr else None})
             else:
